@@ -724,6 +724,12 @@ def f_pymod(a, b):
 
 # --------------------------------------------------------------------------- casts
 
+# roundings read as the identity while the REFERENCE side of a double-precision program is evaluated
+# whose own JAX evaluation narrows internally (the claim is then "equal up to the error JAX's own
+# single-precision evaluation already carries")
+IDENTITY_ROUNDINGS: set = set()
+
+
 def cast_elem(v, src, dst, domain):
     """Cast one element; `domain` collects domain predicates (z3 Bools)."""
     sk, dk = kind_of(src), kind_of(dst)
@@ -755,6 +761,8 @@ def cast_elem(v, src, dst, domain):
             if _isnan(v) or _isinf(v):
                 return v
             return float(np.asarray(v).astype(dst))
+        if name in IDENTITY_ROUNDINGS:
+            return v
         return f_un(name, v)
     if sk == "b":
         if dk == "i":
